@@ -119,7 +119,8 @@ def build(cfg, upto=None):
         except (ValueError, TypeError):
             pass
     try:
-        dec = csr.Decoder(addr_width=cfg["aw"], data_width=cfg["dw"], alignment=cfg["align"])
+        kw_ = {} if (cfg["align"] == 0 and len(cfg["subs"]) % 2 == 0) else {"alignment": cfg["align"]}         # alignment=0 is the documented default
+        dec = csr.Decoder(addr_width=cfg["aw"], data_width=cfg["dw"], **kw_)
         for i in range(len(cfg["subs"]) if upto is None else upto):
             if i in cfg.get("refused_before", ()):
                 refused_add(dec, i)
